@@ -26,9 +26,6 @@ COMMON = {"ast_type", "location", "update", "unpool", "items", "keys", "values",
 FIELD_TRIAGE = {
     ("inline:InlineTranslator.inline_body_aggregate", "replace_cond.atom.symbol"): "replace_cond was selected because literal_predicate(replace_cond) yields the helper predicate and is a positive Literal: its atom is a SymbolicAtom over a Function",
     ("inline:InlineTranslator.inline_body_aggregate", "replace_cond.atom.symbol.arguments"): "see replace_cond.atom.symbol",
-    ("minmax_aggregates:MinMaxAggregator._replace_results_in_minimize", "oldmax.atom"): "oldmax was selected because predicates(oldmax, {NoSign}) is exactly [the min/max predicate]: a conditional literal has at least its condition's predicates too, so oldmax is a plain Literal over that predicate",
-    ("minmax_aggregates:MinMaxAggregator._replace_results_in_minimize", "oldmax.atom.symbol"): "see oldmax.atom",
-    ("minmax_aggregates:MinMaxAggregator._replace_results_in_minimize", "oldmax.atom.symbol.arguments"): "see oldmax.atom",
 }
 
 # asserts / raises that cannot be discharged mechanically, each read and justified: (function, condition text) -> reason
@@ -54,7 +51,7 @@ THROW_TRIAGE = {
     ("minmax_aggregates:MinMaxAggregator._replace_results_in_sum_agg_elem", "old_max is not None"): "_split_element sets oldmax in the same pass in which it sets minmaxpred only if some condition has exactly the predicate; see known finding for the objective variant",
     ("normalize:_convert_old_agg", "False"): "the three atom kinds of a literal inside an old-style aggregate element are exactly Comparison, BooleanConstant and SymbolicAtom (grammar `literal`)",
     ("sum_aggregates:SumAggregator._calc_at_most_on_rule", "condition.literal.atom.symbol.ast_type == ASTType.Function"): "known finding A-23 (classically negated / pooled atoms)",
-    ("symmetry:SymmetryTranslator._inequalities", "len(lit.atom.guards) == 1"): "comparison chains are split by preprocess (expand_comparisons) before any pass runs",
+    ("symmetry:SymmetryTranslator._inequalities", "len(lit.atom.guards) == 1"): "comparison chains are split by preprocess in bodies, in conditions of body literals / aggregate elements and in the conditions of head elements, from which domain rules copy their bodies (rule C05.chain-places); generated rules build one-link comparisons or in-place chains only in __next rules, whose bodies hold no symmetric literals (rule C05.one-link)",
     ("utils.ast:potentially_unifying", "lhs.ast_type in terms"): "arguments are elements of tuple/term sequences: the set lists all seven term kinds of the grammar",
     ("utils.ast:potentially_unifying", "rhs.ast_type in terms"): "see lhs",
     ("utils.ast:collect_binding_information_body", "stm.atom.ast_type != ASTType.Aggregate"): "old-style aggregates in bodies are converted by preprocess (replace_old_aggregates) before any pass runs",
